@@ -50,6 +50,8 @@ pub struct Source {
     pub log: bool,
     /// the kind of the terminal error of a faulty source: every kind but Interrupted is terminal
     pub fault_kind: io::ErrorKind,
+    /// never store anything into the offered slice (the stream is then all zeros)
+    pub nostore: bool,
     /// the decisive call (1-based) in front of which `burst_len` interruptions are delivered (only if intr_pm > 0); 0 = never
     pub burst_call: u64,
     pub burst_len: u32,
@@ -81,6 +83,9 @@ pub fn is_last_fault(e: &io::Error) -> bool {
     while let Some(c) = cur {
         if let Some(t) = c.downcast_ref::<FaultToken>() {
             return t.0 == want && want != 0;
+        }
+        if let Some(se) = c.downcast_ref::<flussab::text::SyntaxError>() {
+            return want != 0 && se.location.line == 7_000_000 + want as usize;
         }
         if let Some(inner) = c.downcast_ref::<io::Error>() {
             if let Some(r) = inner.get_ref() {
@@ -124,6 +129,7 @@ impl Source {
             overrun_at: None,
             rng: crate::rng(seed, 0x5151),
             fault_kind: FAULT_KINDS[(seed.wrapping_mul(0x9E3779B97F4A7C15) >> 33) as usize % FAULT_KINDS.len()],
+            nostore: false,
             burst_call: if seed % 3 == 0 { 1 + (seed / 3) % 3 } else { 0 },
             burst_len: [70u32, 130, 300][(seed / 9 % 3) as usize],
             stats: Rc::new(RefCell::new(SrcStats::default())),
@@ -203,6 +209,15 @@ impl Read for Source {
                 }
                 let token = NEXT_FAULT.with(|c| { let t = c.get(); c.set(t + 1); t });
                 LAST_FAULT.with(|c| c.set(token));
+                // the payload is an error type of our own - or, now and then, a value of the library's own SyntaxError type
+                // (an IO error stays an IO error whatever it carries)
+                if token % 5 == 0 {
+                    let se = flussab::text::SyntaxError {
+                        location: flussab::text::LineColumn { line: 7_000_000 + token as usize, column: 1 },
+                        msg: format!("injected fault #{token}"),
+                    };
+                    return Err(io::Error::new(kind, se));
+                }
                 return Err(io::Error::new(kind, FaultToken(token)));
             } else {
                 if self.log {
@@ -229,7 +244,11 @@ impl Read for Source {
                 }
             }
         };
-        buf[..n].copy_from_slice(&self.data[self.off..self.off + n]);
+        // (a source that says Ok(n) without storing anything is wrong but safe: `data` is all zeros for such a source,
+        // which is what a reader that initialises its buffer exposes)
+        if !self.nostore {
+            buf[..n].copy_from_slice(&self.data[self.off..self.off + n]);
+        }
         {
             let mut st = self.stats.borrow_mut();
             st.ok_reads += 1;
